@@ -122,7 +122,8 @@ def floors(tier):
     for c in ("UserAddNode", "UserAddEdge", "UserDeleteEdge", "UserDeleteNode",
               "UserSwapPredecessors", "UserUpdateSegmentation", "UserUpdateNodeAttrs"):
         f[f"ok-{c}"] = 30
-        f[f"refused-{c, "reentrant-listener-cases": 30}"] = 10
+        f[f"refused-{c}"] = 10
+    f["reentrant-listener-cases"] = 30
     return f
 
 
